@@ -391,7 +391,23 @@ Module IN.
   Theorem C04_inputs_rebuild_minimal : forall cl n,
     In n (rebuild_calls cl) -> exists c, In c cl /\ c_name c = n /\ refs c <> [].
   Proof. exact inputs_rebuild_minimal. Qed.
+
+  (* ---- finding C04-F35: a class of the module may be named like a name the module itself imports and
+     subscripts in its annotations (typing.Optional / List / Union ...): the class shadows the import and the
+     module fails at import.  Full statement and its refutation on the faithful model (class name = type name) ---- *)
+  Definition annotation_imports : list string := ["Optional"; "List"; "Union"; "Any"; "Annotated"]%string.
+  Definition C04_input_classes_avoid_imports_full : Prop := forall s cs snake c,
+    In c (gen_classes s cs snake) -> ~ In (c_name c) annotation_imports.
+  Theorem C04_input_classes_avoid_imports_refuted : ~ C04_input_classes_avoid_imports_full.
+  Proof.
+    intro H.
+    apply (H [("Optional", DInput [{| i_name := "a"; i_type := TNamed "Int"; i_default := None |}])]%string [] true
+             (hd (Build_pclass "" []) (gen_classes [("Optional", DInput [{| i_name := "a"; i_type := TNamed "Int"; i_default := None |}])]%string [] true))).
+    - vm_compute. left. reflexivity.
+    - vm_compute. left. reflexivity.
+  Qed.
 End IN.
+Print Assumptions IN.C04_input_classes_avoid_imports_refuted.
 Print Assumptions IN.C04_inputs_well_scoped.
 Print Assumptions IN.C04_inputs_complete_after_import.
 Print Assumptions IN.C04_inputs_rebuild_minimal.
